@@ -208,20 +208,37 @@ def part_weight_tie(ctx, rec, wb, drv):
     for typ in G.TYPES:
         for n in ((1, 2, 3) if typ in ("UE14", "E12") else (2,)):
             for nu in (0, 1):
-                cases.append((typ, n, nu))
+                cases.append((typ, n, nu, None))
     if ctx.tier != "quick":
-        cases = cases + [(t, n, nu) for t in G.TYPES for n in (1, 3) for nu in (0, 2) if (t, n, nu) not in cases]
+        cases = cases + [(t, n, nu, None) for t in G.TYPES for n in (1, 3) for nu in (0, 2) if (t, n, nu, None) not in cases]
+    # column systems with UNEQUAL equation counts (UE14 / E12: extra[p] further single reflects on
+    # port p + 1): both orders (first system larger / smaller than the second), random sizes for 3
+    # ports, on both consumers (solve_simple: w_offset advanced by each system's own count;
+    # solve_auto: one running counter), sigma_tr != 0 so that the weights differ between equations
+    for typ in ("UE14", "E12"):
+        cases.append((typ, 2, 0, (1, 0)))
+        cases.append((typ, 2, 0, (0, ctx.rng.choice([1, 2, 3]))))
+        cases.append((typ, 3, 0, tuple(ctx.rng.sample(range(0, 5), 3))))
+        cases.append((typ, ctx.rng.choice([2, 3]), 1, tuple(ctx.rng.sample(range(0, 4), 3))))
+        if ctx.tier != "quick":
+            for k in range(6):
+                cases.append((typ, ctx.rng.choice([2, 3]), ctx.rng.choice([0, 0, 1]), tuple(ctx.rng.sample(range(0, 6), 3))))
     snf, strk = 1e-3, 5e-2
     ok_w, ok_i = True, True
     detail_w = detail_i = ""
     bad_case = None
     form = {"restart": None, "offset": None}
-    for (typ, n, nu) in cases:
+    n_unequal = 0
+    for ci, (typ, n, nu, extra) in enumerate(cases):
         seed = ctx.rng.getrandbits(48)
         outs = []
         for mode in (0, 1, 2):
             rng = random.Random(seed)
-            sc = G.build_general(rng, "wt_%s_%d_%d_%d" % (typ, n, nu, mode), typ, n, 1, nu, 0)
+            if extra is None:
+                sc = G.build_general(rng, "wt_%s_%d_%d_%d" % (typ, n, nu, mode), typ, n, 1, nu, 0)
+            else:
+                sc = G.build_unequal_columns(rng, "wtu%d_%s_%d_%d_%s_%d" % (ci, typ, n, nu, "".join(map(str, extra[:n])), mode),
+                                             typ, n, list(extra[:n]), n_unknown=nu)
             sc.cmd("merror 1 - %s %s" % (G.fnum(snf), G.fnum(strk)))
             sc.cmd("ettol 1e9")
             sc.cmd("ptol 1e9")
@@ -237,7 +254,7 @@ def part_weight_tie(ctx, rec, wb, drv):
         if not outs:
             ok_w = ok_i = False
             continue
-        ctx.count(("weight_tie", typ, n, nu))
+        ctx.count(("weight_tie", typ, n, nu, extra))
         # ---- the vector itself
         sc, out = outs[0]
         _, weights, eqm, _ = G.parse_wb(out)
@@ -252,11 +269,19 @@ def part_weight_tie(ctx, rec, wb, drv):
                               "weights 1 %d %s" % (len(lens), " ".join(map(str, lens))),
                               "sindex 1 %d %s" % (len(lens), " ".join(map(str, lens))),
                               "sindex 0 %d %s" % (len(lens), " ".join(map(str, lens))),
-                              "aindex %d %s" % (len(lens), " ".join(map(str, lens)))])
-        if q is None or len(q) != 5:
+                              "aindex %d %s" % (len(lens), " ".join(map(str, lens))),
+                              "sindexloop %d %s" % (len(lens), " ".join(map(str, lens))),
+                              "sindexclosed %d %s" % (len(lens), " ".join(map(str, lens)))])
+        if q is None or len(q) != 7:
             ok_w = ok_i = False
             detail_w = "model driver failed"
             continue
+        if extra is not None:
+            if len(set(lens)) > 1:
+                n_unequal += 1
+            else:
+                ok_i = False
+                detail_i = detail_i or "%s: the scenario was meant to have unequal column systems, equation counts %s" % (sc.sid, lens)
 
         def expected(ids):
             out_ = []
@@ -317,19 +342,32 @@ def part_weight_tie(ctx, rec, wb, drv):
                     used.append(None)
                 else:
                     used.append(int(round((row2[j] / row1[j]).real)) - 2)
-        want_fixed = [int(x) for x in (q[4] if nu > 0 else q[2])]
+        # solve_simple: the loop form (w_offset += equations of each system); it equals the offset
+        # form (theorem simple_index_loop_eq), both are asked of the extracted model
+        want_fixed = [int(x) for x in (q[4] if nu > 0 else q[5])]
         want_old = [int(x) for x in (q[4] if nu > 0 else q[3])]
+        want_closed = [int(x) for x in (q[4] if nu > 0 else q[6])]
+        if nu == 0 and q[5] != q[2]:
+            ok_i = False
+            detail_i = detail_i or "%s: extracted simple_index_loop %s differs from simple_index %s" % (sc.sid, q[5][:12], q[2][:12])
         ctx.traces_validated += 1
         if used != want_fixed:
             ok_i = False
             if not detail_i:
-                detail_i = "%s: indices read %s, model %s%s" % (sc.sid, used[:12], want_fixed[:12],
-                                                               "; equals the model without per-system offset" if used == want_old else "")
+                first = next((i for i, (a, b) in enumerate(zip(used, want_fixed)) if a != b), 0)
+                detail_i = "%s: equation counts %s: indices read %s, model %s (first difference at equation %d)%s%s" % (
+                    sc.sid, lens, used[first:first + 12], want_fixed[first:first + 12], first,
+                    "; equals the model without per-system offset" if used == want_old else "",
+                    "; equals the model variant w_offset = sindex * equations" if used == want_closed and want_closed != want_fixed else "")
                 bad_case = bad_case or (sc, "indices", used == want_old)
         if nu == 0 and len(lens) > 1:
             form["offset"] = (used == want_fixed)
         ctx.sample({"scenario": sc.sid, "systems": lens, "w_vector_head": w[:4], "indices_read_head": used[:6]})
     ctx.extra["weight_vector_form"] = form
+    ctx.extra["weight_tie_unequal_systems"] = n_unequal
+    if n_unequal < 4 and ok_i:
+        ok_i = False
+        detail_i = "only %d scenarios with unequal column systems were compared" % n_unequal
     ctx.obligation("tie:w_vector_vs_WeightModel.calc_weights(running index)", ok_w, detail_w)
     ctx.obligation("tie:consumer_indices_vs_WeightModel.simple_index/auto_index", ok_i, detail_i)
     if (not ok_w or not ok_i) and bad_case:
